@@ -234,7 +234,67 @@ def g_sizes(R, tier):
                   replay=dict(kind="size", family=fam))
 
 
-GROUPS = {"depth": g_depth, "guards": g_guards, "recursion": g_recursion, "sizes": g_sizes, "canary": c13.g_canary}
+# library routines that recurse once per nesting level of the structure they are given (so a
+# call on program-sized data brings back the recursion limit the trampolines avoid)
+DEPTH_RECURSIVE = {
+    ("copy", "deepcopy"), ("copy", "copy"), ("ast", "dump"), ("ast", "fix_missing_locations"), ("ast", "literal_eval"), ("ast", "unparse"),
+    ("pickle", "dumps"), ("pickle", "loads"), ("json", "dumps"), ("marshal", "dumps"), ("pprint", "pformat"), ("pprint", "pprint"),
+}
+DEPTH_RECURSIVE_BASES = {"NodeVisitor", "NodeTransformer"}
+ALLOWED_RECURSIVE_CALLS = {("__init__.py", "convert_code_string", ("ast", "unparse"))}  # the `ast.unparse` option itself
+
+
+def library_recursion_sites():
+    pkg = os.path.join(extract.REPO, "oneliner")
+    out = []
+    for root, _, files in os.walk(pkg):
+        for f in sorted(files):
+            if not f.endswith(".py"):
+                continue
+            tree = ast.parse(open(os.path.join(root, f), encoding="utf8").read())
+            mods, names = {}, {}
+            for n in ast.walk(tree):
+                if isinstance(n, ast.Import):
+                    for a in n.names:
+                        mods[a.asname or a.name.split(".")[0]] = a.name if a.asname else a.name.split(".")[0]
+                elif isinstance(n, ast.ImportFrom) and n.module:
+                    for a in n.names:
+                        names[a.asname or a.name] = (n.module, a.name)
+            def owner(node, tree=tree):
+                best = "<module>"
+                for fn in ast.walk(tree):
+                    if isinstance(fn, (ast.FunctionDef, ast.AsyncFunctionDef)) and fn.lineno <= node.lineno <= getattr(fn, "end_lineno", fn.lineno):
+                        best = fn.name
+                return best
+            for n in ast.walk(tree):
+                if isinstance(n, ast.ClassDef):
+                    for b in n.bases:
+                        bn = b.attr if isinstance(b, ast.Attribute) else getattr(b, "id", None)
+                        if bn in DEPTH_RECURSIVE_BASES:
+                            out.append((f, n.name, ("ast", bn)))
+                if not isinstance(n, ast.Call):
+                    continue
+                fn_ = n.func
+                key = None
+                if isinstance(fn_, ast.Attribute) and isinstance(fn_.value, ast.Name) and fn_.value.id in mods:
+                    key = (mods[fn_.value.id], fn_.attr)
+                elif isinstance(fn_, ast.Name) and fn_.id in names:
+                    key = names[fn_.id]
+                if key in DEPTH_RECURSIVE:
+                    out.append((f, owner(n), key))
+    return out
+
+
+def g_library_recursion(R, tier):
+    sites = library_recursion_sites()
+    bad = [s_ for s_ in sites if s_ not in ALLOWED_RECURSIVE_CALLS]
+    R.check("package/no-call-to-a-depth-recursive-library-routine-outside-the-ast.unparse-option", not bad,
+            f"calls found: {bad}; allowed: {sorted(ALLOWED_RECURSIVE_CALLS)}", backend="structural", replay=dict(kind="size-own"))
+    R.check("package/the-ast.unparse-option-is-the-only-recursive-dependency-call", set(sites) & ALLOWED_RECURSIVE_CALLS == ALLOWED_RECURSIVE_CALLS or not sites,
+            repr(sites), backend="structural")
+
+
+GROUPS = {"depth": g_depth, "library_recursion": g_library_recursion, "guards": g_guards, "recursion": g_recursion, "sizes": g_sizes, "canary": c13.g_canary}
 NO_FRAME_GROUPS = ("depth", "guards", "sizes")
 
 
@@ -242,14 +302,25 @@ def replay_size(rp):
     fam = rp.get("family", "statements")
     if fam not in FAMILIES:
         fam = "statements"
-    for n in (16, 64, 256, 600, 1024, 3000):
+    for n in (16, 64, 256, 600, 1024, 2000):
         if fam in ("nested-if", "nested-def", "nested-targets") and n > 95:
             continue
-        for opts in [("ast.unparse", "chain_call", "if_expr"), ("oneliner", "chain_call", "if_expr"), ("ast.unparse", "list", "if_expr")]:
+        for opts in [("ast.unparse", "chain_call", "if_expr"), ("oneliner", "chain_call", "if_expr"), ("ast.unparse", "list", "if_expr"), ("oneliner", "list", "if_expr")]:
             r = try_size(fam, n, opts)
             if r not in ("ok", "source-rejected-by-cpython"):
                 return dict(reproduced=True, family=fam, N=n, options=opts, observed=r, source_head=FAMILIES[fam](n)[:200])
     return dict(reproduced=False, family=fam)
 
 
-REPLAY = {"size": replay_size}
+def replay_size_own(rp):
+    """expression chains through the project's own (stack-driven) transformer and unparser only"""
+    for fam in ("binop", "calls", "attrs"):
+        for n in (256, 600, 1024, 2000):
+            for opts in [("oneliner", "list", "if_expr"), ("oneliner", "chain_call", "short_circuit")]:
+                r = try_size(fam, n, opts)
+                if r not in ("ok", "source-rejected-by-cpython"):
+                    return dict(reproduced=True, family=fam, N=n, options=opts, observed=r, source_head=FAMILIES[fam](n)[:200])
+    return dict(reproduced=False)
+
+
+REPLAY = {"size": replay_size, "size-own": replay_size_own}
